@@ -435,6 +435,8 @@ type hsRun struct {
 
 const guard = 4 * time.Second
 
+var preCancelHangs int
+
 func runHandshake(cs *caseSpec) hsRun {
 	so, si := getSvc(cs.Out, "out"), getSvc(cs.In, "in")
 	h := newHub(cs.Chunk, cs.WFail)
@@ -648,6 +650,15 @@ func (rn *runner) do(cs caseSpec) {
 	}
 	if cs.Cancel != nil {
 		w.Stat(fmt.Sprintf("cancel_out_%v_k%d", cs.Cancel.Out, cs.Cancel.K))
+		// the same pair, the same side, cancelled before the first frame (precancel.go)
+		if !mitm && cs.Seed == nil && preCancelHangs < 3 {
+			emptyPool()
+			w.Stat("precancel_checked")
+			if msg := runPreCancel(&cs, cs.Cancel.Out); msg != "" {
+				preCancelHangs++ // a broken tree is reported three times, then the stage is skipped (each hang costs 12 s)
+				w.Violation(idx, "C14-precancel", msg, nil)
+			}
+		}
 	}
 	for i, a := range cs.Acts {
 		if a.Replace {
